@@ -10,7 +10,7 @@ import common
 from common import REPLAYS, write_json
 
 
-def record(prop, failure, tier):
+def record(prop, failure, tier, concrete=True):
     os.makedirs(REPLAYS, exist_ok=True)
     h = hashlib.sha256((prop + "|" + failure["oid"]).encode()).hexdigest()[:10]
     path = os.path.join(REPLAYS, "%s-%s.json" % (prop, h))
@@ -21,8 +21,10 @@ def record(prop, failure, tier):
     }
     found = False
     try:
-        import concrete
-        ci = concrete.find_and_replay(prop, failure)
+        if not concrete:
+            raise ImportError()
+        import concrete as concrete_mod
+        ci = concrete_mod.find_and_replay(prop, failure)
         if ci:
             rec["concrete_input"] = ci.get("input")
             rec["replayed_on_real_code"] = ci.get("replay")
